@@ -6,7 +6,8 @@
 (* Sdl!Denote.                                                                *)
 (*                                                                            *)
 (*   skip       ts is not a valid type system (SchemaCheck) or did not build  *)
-(*   ok         the document parses and denotes exactly Describe(ts, opts)    *)
+(*   ok         the document parses, denotes exactly Describe(ts, opts) and   *)
+(*              is closed (every type it names is defined or built in)        *)
 (*   known D    every difference is a string fact that today's printer        *)
 (*              (Sdl!TodayToken) cannot round-trip (its trigger), or the      *)
 (*              document does not parse (or parses to something else because  *)
@@ -24,7 +25,11 @@ Key(e) == <<e.t, e.f, e.a, e.what>>
 Norm(o) ==
   IF o.raw # <<>> THEN LET d == Denote(o.raw) IN Fact(o.t, o.f, o.a, o.what, o.s, IF d.ok THEN d.val ELSE <<0 - 1>>)
   ELSE Fact(o.t, o.f, o.a, o.what, o.s, o.val)
-Observed(c) == {Norm(c.facts[i]) : i \in {j \in DOMAIN c.facts : c.facts[j].t \notin BuiltinDirectives /\ c.facts[j].what # "applied"}}
+\* not compared: built-in directive definitions, applied directives, the library's own description of _Any;
+\* "ref" facts only serve the closure rule
+Compared(o) == o.t \notin BuiltinDirectives /\ o.what \notin {"applied", "ref"} /\ ~(o.t = "_Any" /\ o.what = "desc")
+Observed(c) == {Norm(c.facts[i]) : i \in {j \in DOMAIN c.facts : Compared(c.facts[j])}}
+AllFacts(c) == {Fact(c.facts[i].t, c.facts[i].f, c.facts[i].a, c.facts[i].what, c.facts[i].s, <<>>) : i \in DOMAIN c.facts}
 
 \* dynamic::Interface::register never calls Registry::add_implements
 DynInterfaceImplements(c, e) == c.flavour = "dynamic" /\ e.what = "implements" /\ c.ts.types[e.t].kind = "INTERFACE"
@@ -52,7 +57,10 @@ Verdict(c) ==
              dirdoc == {e \in missing : c.flavour # "dynamic" /\ e.what \in {"desc", "deprecated"} /\ e.a # "" /\ e.f = ""
                                          /\ "directives" \in DOMAIN c.ts /\ e.t \in DOMAIN c.ts.directives}
              unexplained == {e \in diff : Key(e) \notin excusedKeys /\ e \notin dropped /\ e \notin dirdoc}
-         IN IF diff = {} THEN <<"ok", {}, <<>>>>
+             undefined == Undefined(AllFacts(c))
+         IN IF undefined # {} /\ lexBroken = {}
+            THEN <<"violation", {}, <<"undefined type", CHOOSE u \in undefined : TRUE>>>>
+            ELSE IF diff = {} THEN <<"ok", {}, <<>>>>
             ELSE IF unexplained = {}
                  THEN <<"known", {DevOf(e, c.opts) : e \in {b \in broken : Key(b) \in {Key(x) : x \in diff}}}
                                  \cup (IF dropped # {} THEN {"DevDynInterfaceImplementsDropped"} ELSE {})
